@@ -43,6 +43,7 @@ class Action(BaseForm):
         "_coefficients",
         "_domains",
         "_hash",
+        "_initialised",
         "_left",
         "_repr",
         "_right",
@@ -121,10 +122,16 @@ class Action(BaseForm):
             if v == left.arguments()[-1]:
                 return left._ufl_expr_reconstruct_(operand, v=right)
 
-        return super().__new__(cls)
+        # Construct a new instance to be initialised
+        self = super().__new__(cls)
+        self._initialised = False
+        return self
 
     def __init__(self, left, right):
         """Initialise."""
+        if self._initialised:
+            # `__new__` returned an existing Action (e.g. the action of an identity argument)
+            return
         BaseForm.__init__(self)
 
         self._left = left
@@ -135,6 +142,7 @@ class Action(BaseForm):
         self._repr = f"Action({self._left!r}, {self._right!r})"
 
         self._hash = None
+        self._initialised = True
 
     def ufl_function_spaces(self):
         """Get the tuple of function spaces of the underlying form."""
